@@ -33,7 +33,7 @@ impl Check for C11 {
         "C11"
     }
     fn rule(&self) -> String {
-        "case = zoo language x small tree (valid / erroneous / edited-and-re-parsed) x generated query (the C05 generator; 40% with text predicates #eq? #not-eq? #any-eq? #any-not-eq? #match? #not-match? #any-of? #not-any-of? over captures with strings drawn from the document) x cursor configuration (byte range, point range, containing byte/point range with boundaries at node starts/ends +-1, match limit 1..32, max_start_depth 0..6, re-execution after consuming k matches, fresh cursor). Relations: (1) multiset of (pattern, capture, node) in the capture stream = flattening of the match stream and capture starts are non-decreasing; (2) matches(range r) = unrestricted matches whose root intersects r, matches(containing r) = those whose root lies inside r; (3) re-executing the cursor and a fresh cursor give identical streams; (4) with a limit the matches are a sub-multiset and a difference implies did_exceed_match_limit(); (5) remove() on a match suppresses exactly its remaining captures; (6) the Rust iterators of the predicated query = matches of the predicate-free query filtered by an independent predicate evaluator; (7) max_start_depth d keeps exactly the matches whose root depth <= d. evaluations = relations checked. Non-trivial: >= 2 unrestricted matches and the configuration removes >= 1 but not all, or a predicate rejects >= 1 match; distinct by hash(language, text, query, configuration).".into()
+        "case = zoo language x small tree (valid / erroneous / edited-and-re-parsed) x generated query (the C05 generator; 40% with text predicates #eq? #not-eq? #any-eq? #any-not-eq? #match? #not-match? #any-of? #not-any-of? over captures with strings drawn from the document) x cursor configuration (byte range, point range, containing byte/point range with boundaries at node starts/ends +-1, match limit 1..32, max_start_depth 0..6, re-execution after consuming k matches, fresh cursor). Relations: (1) multiset of (pattern, capture, node) in the capture stream = flattening of the match stream and capture starts are non-decreasing; (2) matches(range r) = unrestricted matches whose root intersects r, matches(containing r) = those whose root lies inside r; (3) re-executing the cursor and a fresh cursor give identical streams, also under a match limit after the cursor was abandoned part-way 1-4 times (captures or matches); (4) with a limit the matches are a sub-multiset and a difference implies did_exceed_match_limit(); (5) remove() on a match suppresses exactly its remaining captures; (6) the Rust iterators of the predicated query = matches of the predicate-free query filtered by an independent predicate evaluator; (7) max_start_depth d keeps exactly the matches whose root depth <= d. evaluations = relations checked. Non-trivial: >= 2 unrestricted matches and the configuration removes >= 1 but not all, or a predicate rejects >= 1 match; distinct by hash(language, text, query, configuration).".into()
     }
     fn cases(&self, tier: Tier) -> u64 {
         match tier {
@@ -520,6 +520,36 @@ impl Check for C11 {
             if n_caps < total && !c2.did_exceed_match_limit() {
                 ctx.fail("C11:limit:capture_drop_not_reported", format!("match limit {limit}: the capture stream has {n_caps} of {total} captures but did_exceed_match_limit() is false\n{hdr}"));
                 return;
+            }
+            // (3b) the same limit on a cursor that was used before and abandoned part-way: identical to the fresh one
+            {
+                let mut c3 = QueryCursor::new();
+                c3.set_match_limit(limit);
+                let rounds = 1 + t.below(4);
+                for _ in 0..rounds {
+                    if t.pct(50) {
+                        let mut caps = c3.captures(&query, root, bytes);
+                        for _ in 0..1 + t.below(3) {
+                            if caps.next().is_none() {
+                                break;
+                            }
+                        }
+                    } else {
+                        let mut ms = c3.matches(&query, root, bytes);
+                        for _ in 0..1 + t.below(3) {
+                            if ms.next().is_none() {
+                                break;
+                            }
+                        }
+                    }
+                }
+                let got3 = run!(&mut c3, &query);
+                ctx.out.inner += 1;
+                let exceeded3 = c3.did_exceed_match_limit();
+                if got3 != got || exceeded3 != exceeded {
+                    ctx.fail("C11:reexecution:with_limit_after_abandoned_runs", format!("match limit {limit}: a cursor that was abandoned part-way {rounds} time(s) returns {} matches (exceeded={exceeded3}), a fresh cursor with the same limit {} (exceeded={exceeded})\n{hdr}", got3.len(), got.len()));
+                    return;
+                }
             }
             if got.len() < m_all.len() {
                 nontrivial = true;
